@@ -299,7 +299,7 @@ Proof.
     + apply keepsA_pop2s. intros a b s. apply (keepsA_pushr (set_stk m2 s)).
   - (* EPostfix *) cbn [ExecFun.sx]. destruct (lookup o obj (menv m) n) as [v|x]; [|apply keepsA_same; reflexivity].
     destruct (match v with VInt z => _ | VFloat x => _ | _ => None end) as [v'|]; [|apply keepsA_same; reflexivity].
-    cbv zeta. destruct (stk (set_menv m (env_set (menv m) n v')));
+    cbv zeta. destruct (stk (set_menv m (env_set (menv m) (trim_dollar n) v')));
       intros Ho; cbn [state_of set_menv set_stk menv]; apply gabove_env_set; exact Ho.
   - (* ETernary *) rewrite sx_ternary_S. apply keepsA_then; [apply Hx|]. intros m1 _.
     apply keepsA_pop1s. intros v s. destruct (truthy v); apply (Hx _ (set_stk m1 s)).
@@ -473,7 +473,7 @@ Proof.
     + apply quiet_pop2s. intros a b s. apply (quiet_pushr (set_stk m2 s)).
   - cbn [ExecFun.sx]. destruct (lookup o obj (menv m) n) as [v|x]; [|apply quiet_same; reflexivity].
     destruct (match v with VInt z => _ | VFloat x => _ | _ => None end) as [v'|]; [|apply quiet_same; reflexivity].
-    cbv zeta. destruct (stk (set_menv m (env_set (menv m) n v'))); apply quiet_same; reflexivity.
+    cbv zeta. destruct (stk (set_menv m (env_set (menv m) (trim_dollar n) v'))); apply quiet_same; reflexivity.
   - rewrite sx_ternary_S. apply quiet_then; [apply Hx|]. intros m1 _.
     apply quiet_pop1s. intros v s. destruct (truthy v); apply (Hx _ (set_stk m1 s)).
   - cbn [ExecFun.sx]. apply quiet_then; [apply Hxs|]. intros m1 _.
@@ -830,9 +830,9 @@ Qed.
 Lemma str_eqb_neq : forall a b : str, a <> b -> str_eqb a b = false.
 Proof. intros a b H. destruct (str_eqb a b) eqn:E; [|reflexivity]. apply EnvProofs.str_eqb_eq in E. contradiction. Qed.
 
-Lemma declare_all_other : forall ps vals e n, ~ In n ps -> env_get (declare_all e ps vals) n = env_get e n.
+Lemma declare_all_other : forall ps vals e n, ~ In n (map trim_dollar ps) -> env_get (declare_all e ps vals) n = env_get e n.
 Proof.
-  induction ps as [|a ps IH]; intros [|v vs] e n H; try reflexivity. cbn [declare_all].
+  induction ps as [|a ps IH]; intros [|v vs] e n H; try reflexivity. cbn [declare_all]. cbn [map] in H.
   rewrite IH by (intro; apply H; right; assumption). apply EnvProofs.declare_other.
   apply str_eqb_neq. intro. apply H. left. assumption.
 Qed.
@@ -845,14 +845,14 @@ Lemma declare_all_top : forall ps vals e fr s ss, scopes e = (fr, s) :: ss ->
   exists s', scopes (declare_all e ps vals) = (fr, s') :: ss.
 Proof.
   induction ps as [|a ps IH]; intros [|v vs] e fr s ss H; try (exists s; exact H). cbn [declare_all].
-  apply (IH vs _ fr (assoc_set a v s) ss). unfold env_declare. rewrite H. reflexivity.
+  apply (IH vs _ fr (assoc_set (trim_dollar a) v s) ss). unfold env_declare. rewrite H. reflexivity.
 Qed.
 Lemma declare_all_param : forall ps vals e i p,
-  scopes e <> [] -> NoDup ps -> nth_error ps i = Some p -> List.length ps = List.length vals ->
-  env_get (declare_all e ps vals) p = nth_error vals i.
+  scopes e <> [] -> NoDup (map trim_dollar ps) -> nth_error ps i = Some p -> List.length ps = List.length vals ->
+  env_get (declare_all e ps vals) (trim_dollar p) = nth_error vals i.
 Proof.
   induction ps as [|a ps IH]; intros vals e i p Hs Hd Hn Hl; [destruct i; discriminate|].
-  destruct vals as [|v vs]; [discriminate|]. cbn [declare_all]. inversion Hd as [|? ? Hna Hd']; subst.
+  destruct vals as [|v vs]; [discriminate|]. cbn [declare_all]. cbn [map] in Hd. inversion Hd as [|? ? Hna Hd']; subst.
   destruct i as [|i]; cbn [nth_error] in *.
   - injection Hn as ->. rewrite declare_all_other by exact Hna. apply declare_get_same. exact Hs.
   - apply IH; try assumption; [apply declare_scopes_nonempty; exact Hs|]. cbn [List.length] in Hl. lia.
@@ -865,8 +865,9 @@ Qed.
 Theorem callee_sees_parameters_not_callers_locals : forall m1 af vals,
   List.length (aparams af) = List.length vals ->
   let e := menv (callee_entry m1 af vals) in
-  (NoDup (aparams af) -> forall i p, nth_error (aparams af) i = Some p -> env_get e p = nth_error vals i) /\
-  (forall n, ~ In n (aparams af) -> env_get e n = assoc_get n (globals (menv m1))) /\
+  (NoDup (map trim_dollar (aparams af)) ->
+     forall i p, nth_error (aparams af) i = Some p -> env_get e (trim_dollar p) = nth_error vals i) /\
+  (forall n, ~ In n (map trim_dollar (aparams af)) -> env_get e n = assoc_get n (globals (menv m1))) /\
   globals e = globals (menv m1) /\
   (exists s, scopes e = (SFrame, s) :: scopes (menv m1)).
 Proof.
@@ -991,18 +992,18 @@ Proof.
   - intros n v inner b0 outer. apply shadow_update.
 Qed.
 
-Lemma bind_top : forall x idx ident e kv xv b below,
-  scopes e = b :: below -> (x = ident \/ (idx <> [] /\ x = idx)) ->
-  exists b', scopes (match idx with [] => env_declare e ident xv | _ => env_declare (env_declare e ident xv) idx kv end) = b' :: below /\
+Lemma bind_top : forall x (idx ident' idx' : str) e kv xv b below,
+  scopes e = b :: below -> (x = ident' \/ (idx <> [] /\ x = idx')) ->
+  exists b', scopes (match idx with [] => env_declare e ident' xv | _ => env_declare (env_declare e ident' xv) idx' kv end) = b' :: below /\
              bound x b'.
 Proof.
-  intros x idx ident e kv xv [kb sc] below H Hx.
+  intros x idx ident idx1 e kv xv [kb sc] below H Hx.
   assert (E1 : scopes (env_declare e ident xv) = (kb, assoc_set ident xv sc) :: below).
   { unfold env_declare. rewrite H. reflexivity. }
   destruct idx as [|c idx'].
   - destruct Hx as [->|[Hne _]]; [|contradiction]. exists (kb, assoc_set ident xv sc). split; [exact E1|].
     unfold bound. cbn [snd]. rewrite EnvProofs.assoc_set_get_same. discriminate.
-  - exists (kb, assoc_set (c :: idx') kv (assoc_set ident xv sc)). split.
+  - exists (kb, assoc_set idx1 kv (assoc_set ident xv sc)). split.
     + unfold env_declare at 1. rewrite E1. reflexivity.
     + unfold bound. cbn [snd]. destruct Hx as [->|[_ ->]].
       * apply bound_declare. rewrite EnvProofs.assoc_set_get_same. discriminate.
@@ -1010,14 +1011,14 @@ Proof.
 Qed.
 
 Lemma sforeach_keeps_shadowed : forall x V f idx ident it off body m m' b below,
-  (x = ident \/ (idx <> [] /\ x = idx)) ->
+  (x = trim_dollar ident \/ (idx <> [] /\ x = trim_dollar idx)) ->
   scopes (menv m) = b :: below -> xview x below = V ->
   sforeach f idx ident it off body m = XNormal m' -> xview x (scopes (menv m')) = V.
 Proof.
   intros x V. induction f as [|f IH]; intros idx ident it off body m m' b below Hx Hs Hv H; [discriminate|].
   rewrite sforeach_S in H. destruct (foreach_next o it off) as [[[xv kv]|]|e]; [| |discriminate].
   - cbv zeta in H.
-    destruct (bind_top x idx ident (menv m) kv xv b below Hs Hx) as (b' & Hs' & Hb').
+    destruct (bind_top x idx (trim_dollar ident) (trim_dollar idx) (menv m) kv xv b below Hs Hx) as (b' & Hs' & Hb').
     set (mb := mkM _ _ _ _) in H.
     assert (Hmb : scopes (menv mb) = b' :: below) by exact Hs'.
     destruct (sblock f body mb) as [m1|v1 m1|e1 m1] eqn:E; cbn [then_] in H; try discriminate.
@@ -1039,7 +1040,7 @@ Qed.
    every one of them the name ident (and idx) is bound exactly as it was when the loop started - 
    whatever the body did.  In particular a local variable of that name reads as before. *)
 Theorem foreach_variables_scoped : forall f idx ident v body m m' x,
-  (x = ident \/ (idx <> [] /\ x = idx)) ->
+  (x = trim_dollar ident \/ (idx <> [] /\ x = trim_dollar idx)) ->
   sx (S f) (EForeach idx ident v body) m = XNormal m' ->
   exists m1 c s, sx f v m = XNormal m1 /\ stk m1 = c :: s /\
     map fst (scopes (menv m')) = map fst (scopes (menv m1)) /\
@@ -1281,7 +1282,7 @@ Proof.
   - (* EPostfix *) cbn [ExecFun.sx]. rewrite <- (sim_lookup _ _ H).
     destruct (lookup o obj (menv m) n) as [v|x]; [|apply rsim_err; exact H].
     destruct (match v with VInt z => _ | VFloat x => _ | _ => None end) as [v'|]; [|apply rsim_err; exact H].
-    cbv zeta. pose proof (sim_set_env _ _ H n v') as H1. cbn [set_menv stk].
+    cbv zeta. pose proof (sim_set_env _ _ H (trim_dollar n) v') as H1. cbn [set_menv stk].
     destruct H as (Hs & _). rewrite <- Hs.
     destruct (stk m); [apply rsim_err; exact H1|apply (sim_stk _ _ H1)].
   - (* ETernary *) rewrite !sx_ternary_S. apply rsim_then; [apply Hx; exact H|]. intros m1 m1' _ _ H1.
